@@ -213,6 +213,37 @@ Definition parse_int_lit (lit : list N) : N * N :=
   | _ => (0, 1)
   end.
 
+(* strconv.ParseInt(s, 10, 64) including its sign handling (used by negate() with "-" ++ literal) *)
+Inductive znum_res := ZOk (v : Z) | ZSyntax | ZRange.
+
+Definition parse_int_go (s : list N) : znum_res :=
+  match s with
+  | [] => ZSyntax
+  | c :: t =>
+    let '(neg, ds) := if c =? 43 then (false, t) else if c =? 45 then (true, t) else (false, s) in
+    match ds with
+    | [] => ZSyntax
+    | _ =>
+      match parse_uint_loop 0 ds with
+      | NumSyntax => ZSyntax
+      | NumRange => ZRange              (* un = maxUint64: out of range with either sign *)
+      | NumOk un =>
+        if negb neg && (two63 <=? un) then ZRange
+        else if neg && (two63 <? un) then ZRange
+        else ZOk (if neg then (- Z.of_N un)%Z else Z.of_N un)
+      end
+    end
+  end.
+
+(* negate() on NEGATE INT: if ParseInt("-" ++ lit) is math.MinInt64 the result is that IntLit; otherwise the
+   unary negation of parseIntLit(lit) (a value below 2^63, so no wrap-around). (value, diagnostics) *)
+Definition negate_int_lit (lit : list N) : Z * N :=
+  let fallback := let '(v, e) := parse_int_lit lit in ((- Z.of_N v)%Z, e) in
+  match parse_int_go (45 :: lit) with
+  | ZOk v => if (v =? - 9223372036854775808)%Z then (v, 0) else fallback
+  | _ => fallback
+  end.
+
 (* ---- Kommazahl ------------------------------------------------------------------------------ *)
 
 (* the correctly rounded (nearest-even) binary64 quotient m/d of two positive integers: Flocq/SpecFloat's
